@@ -173,7 +173,24 @@ fn gen_sig(g: &mut Gen) -> CoseSignature {
 }
 
 fn gen_rcp(g: &mut Gen) -> CoseRecipient {
-    CoseRecipient { protected: gen_prot_desc(g), unprotected: gen_small_header(g), ciphertext: if g.bool() { Some(g.small_bytes()) } else { None }, recipients: vec![] }
+    let mut r = CoseRecipient { protected: gen_prot_desc(g), unprotected: gen_small_header(g), ciphertext: if g.bool() { Some(g.small_bytes()) } else { None }, recipients: vec![] };
+    if g.ratio(1, 8) {
+        // a recipient of the recipient (one or two levels down) whose header carries a chain of
+        // counter-signatures as deep as a header may carry (8): the two kinds of nesting are unrelated
+        let depth = *g.pick(&[1usize, 2, 4, 7, 8, 8]);
+        let mut sig = CoseSignature { signature: vec![0x5e], ..Default::default() };
+        for i in 1..depth {
+            let h = Header { counter_signatures: vec![sig], ..Default::default() };
+            sig = if g.bool() { CoseSignature { protected: built(&h), signature: vec![i as u8], ..Default::default() } } else { CoseSignature { unprotected: h, signature: vec![i as u8], ..Default::default() } };
+        }
+        let h = Header { counter_signatures: vec![sig], ..Default::default() };
+        let mut inner = if g.bool() { CoseRecipient { protected: built(&h), ciphertext: Some(vec![1]), ..Default::default() } } else { CoseRecipient { unprotected: h, ciphertext: None, ..Default::default() } };
+        for _ in 0..g.below(2) {
+            inner = CoseRecipient { recipients: vec![inner], ciphertext: Some(vec![2]), ..Default::default() };
+        }
+        r.recipients.push(inner);
+    }
+    r
 }
 
 #[derive(Clone, Copy, PartialEq, Eq, Debug)]
